@@ -185,7 +185,7 @@ def eval_case(case):
                 if kst["done"]:
                     return
                 for dp, dns, fns in os.walk(os.path.join(dest.root, "cond-out")):
-                    if "archive-tmp" in dp:
+                    if realrun.staging_name() in dp.split(os.sep):
                         continue
                     if any(".task." in d0 for d0 in dns):
                         kst["done"] = True
